@@ -313,8 +313,9 @@ Proof.
       change (pok limit (TVec t) (VPend n)) with (n <=? limit) in Pp.
       cbn [dec_dynamic] in H. apply bind_ok in H as [[vs r1] [H1 H2]]. injection H2 as <- <-.
       pose (Q := fun x => typed t x = true /\ wf limit t x = true /\ erase t x = x).
-      destruct (dec_many_inv _ (fun x => enc_static t x ++ enc_dynamic t x) Q) with (5 := H1)
-        as (Ln & Fq & c & E & Lc); [|exact Hw|].
+      assert (HdQ : forall b' x r', wf_bytes b' = true ->
+                (let* (q, r2) := dec_static limit t b' in dec_dynamic limit t q r2) = Ok (x, r') ->
+                Q x /\ exists c, b' = c ++ r' /\ length c = length (enc_static t x ++ enc_dynamic t x)).
       { intros b' x r' Hw' Hd. apply bind_ok in Hd as [[q r2] [Hs Hd]].
         destruct (St Hok b' q r2 Hw' Hs) as (c1 & E1 & L1 & Pq).
         assert (Hw2 : wf_bytes r2 = true) by (rewrite E1 in Hw'; exact (wf_bytes_app_r _ _ Hw')).
@@ -322,6 +323,8 @@ Proof.
         split; [repeat split; assumption|].
         exists (c1 ++ c2). split; [rewrite E1, E2, app_assoc; reflexivity|].
         rewrite !app_length, L1, L2, <- Pe, (proj1 slen_pend_all t x T). reflexivity. }
+      destruct (dec_many_inv _ (fun x => enc_static t x ++ enc_dynamic t x) Q HdQ _ _ _ _ _ Hw H1)
+        as (Ln & Fq & c & E & Lc).
       exists c. split; [exact E|].
       change (enc_dynamic (TVec t) (VL vs)) with (flat_map (fun x => enc_static t x ++ enc_dynamic t x) vs).
       split; [exact Lc|].
